@@ -274,7 +274,7 @@ where
         return Err("curve_fit: tol must be positive".to_owned());
     }
 
-    if !h.is_sign_positive() {
+    if !h.is_sign_positive() || h.is_zero() {
         return Err("curve_fit: h must be positive".to_owned());
     }
 
